@@ -52,6 +52,9 @@ type Contract struct {
 	File     string
 	Line     int
 	Iface    bool // contract of an interface method
+	Pure     bool // pure lemma: no Go function; proved by induction on its measure
+	PureParams []SpecParam
+	Pkg      string
 }
 
 type SpecParam struct {
@@ -202,7 +205,7 @@ func loadProgram(repo string) (*Program, error) {
 	return p, nil
 }
 
-var kwRe = regexp.MustCompile(`^(spec|opaque|contract|iface|requires|ensures|modifies|loop|mode|trusted|panics|use|decreases|lemma|trigger|end)\b`)
+var kwRe = regexp.MustCompile(`^(spec|opaque|contract|iface|purelemma|requires|ensures|modifies|loop|mode|trusted|panics|use|decreases|lemma|trigger|end)\b`)
 
 func (p *Program) parseContractFile(path, short string) error {
 	fh, err := os.Open(path)
@@ -289,6 +292,28 @@ func (p *Program) parseContractFile(path, short string) error {
 			sf.Recurse = specCalls(e, sf.Name)
 			p.Specs[short+"."+sf.Name] = sf
 			cur = nil
+		case "purelemma":
+			m := regexp.MustCompile(`^(\w+)\s*\(([^)]*)\)\s*$`).FindStringSubmatch(rest)
+			if m == nil {
+				return fmt.Errorf("%s:%d: malformed purelemma", path, rc.line)
+			}
+			key := short + "." + m[1]
+			cur = &Contract{Key: key, Loops: map[int]*LoopSpec{}, File: path, Line: rc.line, Pure: true, IsLemma: true, Pkg: short}
+			for _, prm := range strings.Split(m[2], ",") {
+				prm = strings.TrimSpace(prm)
+				if prm == "" {
+					continue
+				}
+				i := strings.IndexAny(prm, " \t")
+				if i < 0 {
+					return fmt.Errorf("%s:%d: purelemma parameter needs a type: %q", path, rc.line, prm)
+				}
+				cur.PureParams = append(cur.PureParams, SpecParam{prm[:i], strings.TrimSpace(prm[i:])})
+			}
+			if _, dup := p.Contracts[key]; dup {
+				return fmt.Errorf("%s:%d: duplicate contract for %s", path, rc.line, key)
+			}
+			p.Contracts[key] = cur
 		case "contract", "iface":
 			name := strings.TrimSpace(rest)
 			key := short + "." + name
